@@ -113,6 +113,48 @@ class Heap(dict):
         dict.__setitem__(self, r, cell)
 
 
+def _sum_of_squares_zero(cond):
+    """cond of the form  S == 0  or  S <= 0  with S = sum of  c*q*q  (c a positive numeral, the same factor twice):
+    the equivalent conjunction q == 0 for every q; None otherwise"""
+    if not (z3.is_app(cond) and cond.num_args() == 2 and cond.decl().kind() in (z3.Z3_OP_EQ, z3.Z3_OP_LE)):
+        return None
+    l, r = cond.arg(0), cond.arg(1)
+    if not z3.is_arith(l):
+        return None
+    if not z3.is_rational_value(r) or r.as_fraction() != 0:
+        return None
+    terms = l.children() if z3.is_app_of(l, z3.Z3_OP_ADD) else [l]
+    qs = []
+    for t in terms:
+        if not z3.is_app_of(t, z3.Z3_OP_MUL):
+            return None
+        fs, todo = [], list(t.children())
+        while todo:                             # flatten nested products: (* 1/3 (* q q))
+            f = todo.pop(0)
+            if z3.is_app_of(f, z3.Z3_OP_MUL):
+                todo = list(f.children()) + todo
+            else:
+                fs.append(f)
+        def num(f):
+            if z3.is_rational_value(f):
+                return f
+            if f.num_args() and all(z3.is_rational_value(c) for c in f.children()):
+                g = z3.simplify(f)              # an unevaluated constant such as (/ 1.0 3.0)
+                return g if z3.is_rational_value(g) else None
+            return None
+        nums = [num(f) for f in fs if num(f) is not None]
+        rest = [f for f in fs if num(f) is None]
+        coef = 1
+        for n_ in nums:
+            coef *= n_.as_fraction()
+        if coef <= 0 or len(rest) != 2 or not rest[0].eq(rest[1]):
+            return None
+        qs.append(rest[0])
+    if not qs:
+        return None
+    return z3.And(*[q == 0 for q in qs]) if len(qs) > 1 else (qs[0] == 0)
+
+
 class State:
     def __init__(self, prefix, timeout_ms=10000, symbols=None):
         self.solver = z3.Solver()
@@ -134,6 +176,7 @@ class State:
         self.abs.set('timeout', 2000)
         self._abs_memo = {}
         self.nonlinear = False
+        self.nonzero_terms = []
         self.timeout_ms = timeout_ms
         self.pc = []
         self.heap = Heap()
@@ -213,7 +256,40 @@ class State:
                 self.abs.add(cond)
             else:
                 self.nonlinear = True
+                self._note_nonzero(cond)
                 self.abs.add(self._abstract(cond))
+                # also in z3's normal form: branch conditions arrive simplified, and the abstraction matches nonlinear
+                # subterms structurally (the same polynomial then abstracts to the same constants on both sides)
+                sc = z3.simplify(cond)
+                if not sc.eq(cond):
+                    self.abs.add(self._abstract(sc))
+
+    def _note_nonzero(self, cond):
+        """remember the nonlinear real terms an assumption makes non-zero (t > 0, t < 0, t != 0): used to refute `t' == 0`
+        for a t' that is the same polynomial written differently (sympy normal form, see feasible)"""
+        stack = [cond]
+        while stack:
+            c = stack.pop()
+            if z3.is_and(c):
+                stack.extend(c.children())
+                continue
+            neg = False
+            if z3.is_not(c):
+                c, neg = c.arg(0), True
+            if not z3.is_app(c) or c.num_args() != 2 or not z3.is_arith(c.arg(0)):
+                continue
+            k = c.decl().kind()
+            strict = (k in (z3.Z3_OP_GT, z3.Z3_OP_LT) and not neg) or (k in (z3.Z3_OP_GE, z3.Z3_OP_LE, z3.Z3_OP_EQ) and neg) or \
+                (k == z3.Z3_OP_DISTINCT and not neg)
+            if strict and not is_linear(c) and len(self.nonzero_terms) < 8:
+                l, r = c.arg(0), c.arg(1)
+
+                def zero(u):
+                    return (z3.is_int_value(u) and u.as_long() == 0) or (z3.is_rational_value(u) and u.as_fraction() == 0)
+                # If(g, 0, m) != 0 means m != 0 (e.g. the library's `0.0 if abs(m) <= tol else m`)
+                while zero(r) and z3.is_app_of(l, z3.Z3_OP_ITE) and (zero(l.arg(1)) or zero(l.arg(2))):
+                    l = l.arg(2) if zero(l.arg(1)) else l.arg(1)
+                self.nonzero_terms.append(l - r)
 
     def _abstract(self, t):
         from .algebra import _abstract
@@ -266,6 +342,9 @@ class State:
         """is pc /\\ cond satisfiable?  unknown counts as feasible (sound for proofs)."""
         if has_quantifier(cond):
             return self._check(cond) != z3.unsat
+        sos = _sum_of_squares_zero(cond)
+        if sos is not None:
+            cond = sos            # c1*q1*q1 + ... + cn*qn*qn == 0 (ci > 0)  <=>  q1 == 0 and ... and qn == 0
         if is_linear(cond):
             t0 = time.time()
             self.lin.push()
@@ -291,6 +370,13 @@ class State:
                 # feasible in the abstraction.  Ordinary branches are simply explored (sound: an infeasible branch proves its
                 # obligations vacuously); guards whose 'wrong' side the interpreter cannot execute at all (sqrt of a
                 # negative number ...) ask for the exact solver (exact=True)
+                if self.nonzero_terms and z3.is_eq(cond) and z3.is_arith(cond.arg(0)):
+                    from .algebra import nonzero_multiple
+                    t0 = time.time()
+                    hit = nonzero_multiple(cond.arg(0) - cond.arg(1), self.nonzero_terms)
+                    self.solver_secs += time.time() - t0
+                    if hit:
+                        return False
                 if not exact:
                     return True
                 self.light.set('timeout', 2000)
